@@ -18,6 +18,13 @@ func CtxWithBearer(token string, present bool) context.Context {
 	return metadata.NewIncomingContext(context.Background(), metadata.Pairs("authorization", "bearer "+token))
 }
 
+func CtxWithAuthHeader(header string, present bool) context.Context {
+	if !present {
+		return context.Background()
+	}
+	return metadata.NewIncomingContext(context.Background(), metadata.Pairs("authorization", header))
+}
+
 func SetConfig(key, value string) { viper.Set(key, value) }
 
 // RegistrationClosure is only available inside the engine.
